@@ -919,6 +919,21 @@ pub fn main(tier: Tier) -> i32 {
         "samples": if samples.is_empty() { vec![json!({"base": bs.first()})] } else { samples },
         "rule": "bases x every set of <= d deviations; distinct = (policy, allowlist, entry, outputs, deviation kinds, outcome class, first broken clause of the reference)",
     });
+    // "explicit approval": histories of memorised operator approvals and requests through the
+    // approval layer (only in the first arithmetic profile; it has no arithmetic of its own)
+    let mut cov = cov;
+    if profile != "wrap" {
+        let a = crate::approvers::explore(tier, tier.pick(15.0, 300.0));
+        for f in &a.found {
+            if f.vio.prop == "C08" {
+                run.violation(&f.vio.key, &f.vio.what, f.replay.clone());
+            }
+        }
+        if let Some(o) = cov.as_object_mut() {
+            o.insert("approval_layer".into(), json!(a.models));
+            o.insert("approval_layer_transitions".into(), json!(a.stats.transitions));
+        }
+    }
     run.finish(cov)
 }
 
